@@ -104,7 +104,8 @@ def histories(ctx, n):
     out, meta = [], []
     for _ in range(n):
         N = rng.randint(1, 6)
-        cfg = sconnp.cfg_str(p=rng.choice([0, 1, 2, 5, 9]))
+        auto = rng.random() < 0.3        # streaming mode: completed transactions are destroyed, the caller calls htp_connp_tx_freed now and then
+        cfg = sconnp.cfg_str(p=rng.choice([0, 1, 2, 5, 9]), auto=1 if auto else 0)
         rqs, rss = [], []
         for i in range(N):
             a, tr = sconnp.build_request(rng, i)
@@ -112,6 +113,13 @@ def histories(ctx, n):
             rqs.append(a)
             rss.append(b)
         ops = ["O"] + interleave(rng, rqs, rss)
+        if auto:
+            k = 1
+            while k < len(ops):
+                if rng.random() < 0.35:
+                    ops.insert(k + 1, "F")
+                    k += 1
+                k += 1
         ops.append("C")
         out.append(sconnp.case(ops, cfg=cfg))
         meta.append(N)
@@ -149,6 +157,14 @@ def check(ctx):
     for i, c in enumerate(cases[:len(impl)]):
         N = nmap[c]
         dumps = [d for d in sconnp.tx_dumps(impl[i])]
+        if ",auto=1," in c:
+            # destroyed transactions leave the list: take each transaction as the TRANSACTION_COMPLETE callback saw it (ordered by creation)
+            seen = {}
+            for t, d in re.findall(r"h18\.(\d+)\.(\{[^}]*\})", impl[i].split("||")[0]):
+                seen.setdefault(int(t), d)
+            dumps = [seen[t] for t in sorted(seen)]
+            if sorted(seen) != list(range(len(seen))):
+                dumps = dumps + ["N"]
         problem = None
         if len(dumps) != N or any(d == "N" for d in dumps):
             problem = "expected %d transactions, reported %d" % (N, len(dumps))
@@ -209,7 +225,7 @@ def check(ctx):
     vf.note_distinct(ctx, keys)
     vf.sample(ctx, {"case": cases[0][:400], "N": meta[0]})
     rule = ("%d connections with N = 1..6 id-tagged well-formed exchanges (request id in the URI, response id in a Resp-Id header), random legal interleavings "
-            "(response k only after request k was offered; requests may run ahead; runs of messages glued into one chunk; random cuts; a third of them start with a CONNECT exchange, accepted or refused, with the hand-over protocol): #transactions = N, ids "
+            "(response k only after request k was offered; requests may run ahead; runs of messages glued into one chunk; random cuts; a third of them start with a CONNECT exchange, accepted or refused, with the hand-over protocol; 30%% in streaming mode: tx_auto_destroy with htp_connp_tx_freed calls in between, transactions read at TRANSACTION_COMPLETE): #transactions = N, ids "
             "match per transaction, PIPELINED = event-based criterion. distinct_nontrivial = distinct (N, flag, length class)." % len(cases))
     return vf.standard_epilogue(ctx, pr, "make Props/Properties_C04.vo + ./check C04", rule,
                                 ["'started' is read at the level the API exposes (REQUEST_START / RESPONSE_START events), see DESIGN.md",
